@@ -47,6 +47,9 @@ func GlobalInit(logDir string) {
 		}
 		lc := config.NewLogger(config.AppStore)
 		lc.Path = logDir
+		if d := os.Getenv("VH_LOGDIR"); d != "" {
+			lc.Path = d
+		}
 		lc.Level = 2 // error
 		logger.InitLogger(lc)
 		_ = resourceallocator.InitResAllocator(1000000, 1, 1, resourceallocator.GradientDesc, resourceallocator.ChunkReaderRes, 0, 1)
@@ -57,11 +60,12 @@ func GlobalInit(logDir string) {
 }
 
 type Env struct {
-	Dir     string
-	Eng     engine.Engine
-	client  *metaclient.Client
-	loadCtx *metaclient.LoadCtx
-	stop    chan struct{}
+	NoSettle bool // concurrent drivers (C04) do not wait for background loads
+	Dir      string
+	Eng      engine.Engine
+	client   *metaclient.Client
+	loadCtx  *metaclient.LoadCtx
+	stop     chan struct{}
 }
 
 type Options struct {
@@ -77,7 +81,7 @@ func shardTime() (time.Time, time.Time) {
 
 func durationInfo() *meta2.ShardDurationInfo {
 	return &meta2.ShardDurationInfo{
-		Ident: meta2.ShardIdentifier{ShardID: ShardID, ShardGroupID: 1, Policy: RP, OwnerDb: DB, OwnerPt: PT},
+		Ident:        meta2.ShardIdentifier{ShardID: ShardID, ShardGroupID: 1, Policy: RP, OwnerDb: DB, OwnerPt: PT},
 		DurationInfo: meta2.DurationDescriptor{Tier: util.Hot, TierDuration: 0, Duration: 0},
 	}
 }
@@ -126,6 +130,7 @@ func Open(dir string, o Options) (*Env, error) {
 	opt.CompactThroughputBurst = 1 << 30
 	opt.SnapshotThroughput = 1 << 30
 	opt.SnapshotThroughputBurst = 1 << 30
+	opt.BackgroundReadThroughput = 1 << 30
 	opt.SnapshotTblNum = 1
 	opt.FragmentsNumPerFlush = 1
 	opt.ReadPageSize = "32kb"
@@ -278,7 +283,28 @@ func (e *Env) Write(pts []Pt) error {
 	if err != nil {
 		return err
 	}
-	return e.Eng.WriteRows(DB, RP, PT, ShardID, rows, bin, nil)
+	err = e.Eng.WriteRows(DB, RP, PT, ShardID, rows, bin, nil)
+	if !e.NoSettle {
+		e.Settle()
+	}
+	return err
+}
+
+// Settle waits until the asynchronous reload of the Sequencer (per-series last flush times, started
+// by the first write after an open) has finished. The sequential-history checks (C01-C03) explore
+// histories, not schedules: they let this background load finish before the next action, exactly as
+// they make the series index searchable. The race itself belongs to C04 (known finding F-C04-1).
+func (e *Env) Settle() {
+	st := e.Shard().GetTableStore()
+	for i := 0; i < 5000; i++ {
+		sq := st.Sequencer()
+		l := sq.IsLoading()
+		sq.UnRef()
+		if !l {
+			return
+		}
+		time.Sleep(200 * time.Microsecond)
+	}
 }
 
 func (e *Env) Flush() { e.Shard().ForceFlush() }
